@@ -131,19 +131,18 @@ class DechunkedInput(io.RawIOBase):
                 # There is data (left) in this chunk, so append it to the
                 # buffer. If this operation fully consumes the chunk, this will
                 # reset self._len to 0.
-                n = min(len(buf), self._len)
+                # Only read as much data as can fit in the rest of buf.
+                n = min(len(buf) - read, self._len)
+                data = self._rfile.read(n)
 
-                # If (read + chunk size) becomes more than len(buf), buf will
-                # grow beyond the original size and read more data than
-                # required. So only read as much data as can fit in buf.
-                if read + n > len(buf):
-                    buf[read:] = self._rfile.read(len(buf) - read)
-                    self._len -= len(buf) - read
-                    read = len(buf)
-                else:
-                    buf[read : read + n] = self._rfile.read(n)
-                    self._len -= n
-                    read += n
+                if len(data) != n:
+                    # The stream ended inside the chunk. Assigning the short
+                    # data would resize buf and report bytes never received.
+                    raise OSError("Incomplete chunk")
+
+                buf[read : read + n] = data
+                self._len -= n
+                read += n
 
             if self._len == 0:
                 # Skip the terminating newline of a chunk that has been fully
